@@ -1,4 +1,5 @@
 """C06 — safe-to-notar / safe-to-skip are signalled exactly when the protocol allows (structural part)."""
+import re
 from engine import guards as G
 from engine import mir
 from . import common as K
@@ -130,6 +131,24 @@ def ob_triggers(run, oid):
         for c in b.calls_to(SS + "::check_safe_to_notar"):
             pv = b.provenance(b.operand_term(c.args[1]))
             o.check((SS, "pending_safe_to_notar") in pv["fields"], "count_skip_stake|check_safe_to_notar|pending", "skip-vote path re-evaluates the pending set", c.span)
+    # ... the WHOLE pending set, every time: the walked collection is pending_safe_to_notar itself (no alternative / narrowed source), and the only
+    # block skipped is one whose event was already sent
+    passthrough = re.compile(r"::(clone|into_iter|iter|next|cloned|copied|deref|as_ref|borrow|to_vec|to_owned|collect|as_slice)$")
+    for fn, rec in (("count_skip_stake", []), ("add_vote", [lambda a: a[0] in ("eq", "ne") and any(K.mentions_call(x, "own_id") for x in a[1])])):
+        b = prog.body(SS + "::" + fn)
+        if b is None:
+            continue
+        for c in b.calls_to(SS + "::check_safe_to_notar"):
+            pv = b.provenance(b.operand_term(c.args[1]))
+            if (SS, "pending_safe_to_notar") not in pv["fields"]:
+                continue
+            other = sorted(x for x in pv["calls"] if not passthrough.search(x)) + sorted("local " + x for x in pv["locals"])
+            o.check(not other, "%s|check_safe_to_notar|whole-pending-set" % fn, "the re-evaluated blocks are exactly the pending_safe_to_notar set (no alternative or narrowed source)", c.span,
+                    {"other_sources": [K.fshort(x) for x in other]})
+            sent = [lambda a: a[0] == "bool" and a[2] is False and K.mentions_call(a[1][0], "contains") and K.mentions_field(a[1][0], "sent_safe_to_notar")]
+            extra = D.extra_guards(prog, b, c.bb, rec + sent + [lambda a: a[0] == "variant" and a[1][1] <= set(K.VOTE_KINDS)])
+            o.check(not extra, "%s|check_safe_to_notar|no-extra-condition" % fn, "a pending block is re-evaluated unless its event was already sent: no further condition", c.span,
+                    {"extra": G.atoms_show(extra)})
     # pending set is fed when stake suffices but the own vote / skip stake is missing
     b = prog.body(SS + "::check_safe_to_notar")
     if b is not None:
